@@ -19,6 +19,7 @@ import pickle
 from hypothesis import strategies as st
 
 from vp.core.acc import Acc
+from vp.core.env import cpu_watchdog, Hang
 from vp.core.hyp import campaign, Outcome, Budget
 
 PROPERTY = "C39"
@@ -62,14 +63,25 @@ META = {
 }
 
 KINDS = ("odict", "lodict", "modict", "oset")
+CASE_CPU_S = 2.0     # CPU-time watchdog per case (cases take well under a millisecond)
+CONFIRM_CPU_S = 6.0  # a case that trips the watchdog is run a second time with this limit before it is reported
+                     # (on a loaded VM stolen time is accounted as user time, so one trip alone proves nothing)
+MAX_HANGS = 2        # per worker process: after that many hung cases the remaining cases are skipped
+HANGS = 0
 SENT = "<absent>"
 PROTOS = list(range(2, pickle.HIGHEST_PROTOCOL + 1))
 
 
+_CLS = {}
+
+
 def _classes():
-    from ioflo.aid.odicting import odict, lodict, modict
-    from ioflo.aid.osetting import oset
-    return {"odict": odict, "lodict": lodict, "modict": modict, "oset": oset}
+    """Imported lazily (after vp.core.env.use_repo selected the tree) and outside any watchdog."""
+    if not _CLS:
+        from ioflo.aid.odicting import odict, lodict, modict
+        from ioflo.aid.osetting import oset
+        _CLS.update({"odict": odict, "lodict": lodict, "modict": modict, "oset": oset})
+    return _CLS
 
 
 class Stop(Exception):
@@ -244,9 +256,10 @@ def state_modict(kind, real, m, probes):
 
 
 def state_oset(kind, real, m, probes):
+    cap = len(m) + 2   # a corrupted link list may be cyclic: never materialise more than the model holds + 2
     obs = [
-        ("list(iter)", lambda: list(real), list(m)),
-        ("list(reversed)", lambda: list(reversed(real)), list(reversed(m))),
+        ("list(iter)", lambda: list(itertools.islice(iter(real), cap)), list(m)),
+        ("list(reversed)", lambda: list(itertools.islice(reversed(real), cap)), list(reversed(m))),
         ("len", lambda: len(real), len(m)),
     ]
     for p in probes:
@@ -294,6 +307,7 @@ class Feats(object):
         self.ops = set()
         self.expected_raise = 0
         self.steps = 0
+        self.skipped = False
 
 
 def run_case(case):
@@ -301,19 +315,42 @@ def run_case(case):
     kind = case["kind"]
     feats = Feats()
     probes = case_probes(case)
+    mixed = False
     if kind == "lodict":
-        feats.mixed = any(p != p.lower() for p in probes)
+        mixed = feats.mixed = any(p != p.lower() for p in probes)
         probes = sorted(set(probes) | set(p.upper() for p in probes) | set(p.lower() for p in probes))
+    global HANGS
+    _classes()                  # import ioflo before the CPU watchdog is armed
+    if HANGS >= MAX_HANGS:      # the run is already a violation; do not spend 1 s CPU on every further case
+        feats.skipped = True
+        return [], feats
     try:
-        if kind in ("odict", "lodict"):
-            _run_odict(kind, case, feats, probes)
-        elif kind == "modict":
-            _run_modict(kind, case, feats, probes)
-        else:
-            _run_oset(kind, case, feats, probes)
+        try:
+            with cpu_watchdog(CASE_CPU_S):
+                _run_kind(kind, case, feats, probes)
+        except Hang:
+            feats = Feats()
+            feats.mixed = mixed
+            with cpu_watchdog(CONFIRM_CPU_S):
+                _run_kind(kind, case, feats, probes)
     except Stop as s:
         return [(s.sig, "%s (step %d of %s)" % (s.what, feats.steps, kind))], feats
+    except Hang:
+        HANGS += 1
+        op = case["ops"][feats.steps - 1][0] if feats.steps else "__init__"
+        return [("%s.%s:hang" % (kind, op), "step %d %r did not finish within %s s CPU (a step normally takes "
+                 "microseconds)" % (feats.steps, case["ops"][feats.steps - 1] if feats.steps else case.get("init"),
+                                    CONFIRM_CPU_S))], feats
     return [], feats
+
+
+def _run_kind(kind, case, feats, probes):
+    if kind in ("odict", "lodict"):
+        _run_odict(kind, case, feats, probes)
+    elif kind == "modict":
+        _run_modict(kind, case, feats, probes)
+    else:
+        _run_oset(kind, case, feats, probes)
 
 
 def _track(feats, before, after):
@@ -816,14 +853,15 @@ def _run_oset(kind, case, feats, probes):
             res = expect(kind, name, got, ("any",), ctx)
             if type(res) is not cls:
                 raise Stop("%s.%s:type" % (kind, name), "%s: result is %r" % (ctx, res))
-            rl = list(res)
+            rl = list(itertools.islice(iter(res), len(exp) + 2))
             ordered = name in ("or", "sub")
             if (rl != exp) if ordered else (sorted(rl) != sorted(exp)):
                 raise Stop("%s.%s:return" % (kind, name), "%s: result %r, model expects %r%s"
                            % (ctx, rl, exp, "" if ordered else " (as a set)"))
-            if list(reversed(res)) != rl[::-1] or len(res) != len(rl):
+            rr = list(itertools.islice(reversed(res), len(exp) + 2))
+            if rr != rl[::-1] or len(res) != len(rl):
                 raise Stop("%s.%s:links" % (kind, name), "%s: result iterates %r forward, %r backward, len %d"
-                           % (ctx, rl, list(reversed(res)), len(res)))
+                           % (ctx, rl, rr, len(res)))
             if keep and ordered:
                 real = res
                 m = exp
@@ -1006,6 +1044,8 @@ def outcome(case):
         classes.append(kind + "/reinsert-after-removal")
     if feats.mixed:
         classes.append(kind + "/mixed-case-keys")
+    if feats.skipped:
+        return Outcome([], nontrivial=False, classes=[kind + "/skipped-after-%d-hangs" % MAX_HANGS], key=None, sample=case)
     if feats.expected_raise:
         classes.append(kind + "/expected-exception-seen")
     classes.extend("%s/op:%s" % (kind, o) for o in sorted(feats.ops))
